@@ -156,7 +156,14 @@ class Harness(object):
                 e.set('{%s}nil' % XSI, 'true')
             else:
                 e.text = wire_text(p[1])
-        if meth == 'top':
+        if meth == 'top' and payload[0] == 'dup':
+            for it in payload[1]:
+                etree.SubElement(root, ns + 'x').text = wire_text(it)
+        elif meth == 'nested' and payload[0] == 'dup':
+            x = etree.SubElement(root, ns + 'x')
+            for it in payload[1]:
+                etree.SubElement(x, ns + 'v').text = wire_text(it)
+        elif meth == 'top':
             leaf(root, 'x', payload)
         elif meth == 'nested':
             x = etree.SubElement(root, ns + 'x')
@@ -187,6 +194,8 @@ class Harness(object):
     def doc_body(self, meth, payload):
         def leaf(p):
             return None if p[0] == 'null' else p[1]
+        if payload[0] == 'dup':
+            return None        # a map cannot hold a key twice: not expressible in a dict document
         if meth == 'top':
             inner = {} if payload[0] == 'absent' else {'x': leaf(payload)}
         elif meth == 'nested':
@@ -200,6 +209,8 @@ class Harness(object):
         return {meth: inner}
 
     def http_qs(self, meth, payload):
+        if payload[0] == 'dup' and meth in ('top', 'nested'):
+            return '&'.join(('x=' if meth == 'top' else 'x.v=') + quote(wire_text(i)) for i in payload[1])
         if meth == 'top':
             return '' if payload[0] == 'absent' else ('x=' + quote(wire_text(payload[1])) if payload[0] == 'val' else None)
         if meth == 'nested':
@@ -496,6 +507,77 @@ def family_occurs(check, tier):
     check.sample({'family': 'occurrence', 'bounds': bounds, 'counts': [0, hi - 1]})
 
 
+def family_occurs_single(check, tier):
+    """a member that is not repeatable (max_occurs=1, optional or mandatory) sent 0..3 times: only the
+    element-per-item protocols (XML, SOAP) and the flat key/value notation (HttpRpc) can express it; every
+    one of them must reach the same verdict, min_occurs <= n <= 1"""
+    from spyne.model.primitive import Integer
+    for mn in (0, 1):
+        h = Harness(Integer.customize(min_occurs=mn, max_occurs=1))
+        for n in range(0, 4):
+            want = mn <= n <= 1
+            for proto in ('xml', 'soap11', 'http'):
+                for pos in ('top', 'nested'):
+                    if proto == 'http' and pos == 'nested' and n == 0:
+                        continue   # no pairs at all: the enclosing object itself is absent in the flat form
+                    res = h.run(proto, pos, ('dup', list(range(1, n + 1))))
+                    got = classify(res)
+                    if got is None:
+                        continue
+                    check.count(('occ1', mn, n, proto, pos))
+                    ok = (got == 'accept') == want and not got.startswith('other')
+                    if ok and got == 'accept':
+                        ok = res[1] == (1 if n else None)
+                    if not ok:
+                        check.fail('C05|occurs-single|%s|%s|%s' % (proto, pos, 'over-max' if n > 1 else
+                                                                   'under-min' if n < mn else 'conforming'),
+                                   'min_occurs=%s max_occurs=1 member sent %d times over %s at %s: expected %s, got %r' % (
+                                       mn, n, proto, pos, 'accept' if want else 'reject', res),
+                                   {'min_occurs': mn, 'max_occurs': 1, 'times': n, 'protocol': proto, 'position': pos})
+    check.sample({'family': 'occurrence of non-repeatable members', 'times': [0, 3], 'protocols': ['xml', 'soap11', 'http']})
+
+
+def family_datetime_range(check, tier):
+    """range facets of DateTime are facets of the INSTANT: a literal with a UTC offset is compared with the
+    bound as a point in time, whatever its wall-clock fields say; identically over every protocol"""
+    import datetime as dtm
+    from spyne.model.primitive import DateTime
+    rng = check.rng
+    utc = dtm.timezone.utc
+    bound = dtm.datetime(2020, 1, 1, 0, 0, 0, tzinfo=utc)
+    facets = [('ge', lambda v: v >= bound), ('gt', lambda v: v > bound), ('le', lambda v: v <= bound), ('lt', lambda v: v < bound)]
+    offs = [0, 60, -60, 120, -120, 330, -210, 840, -840, 1]
+    if tier != 'quick':
+        offs += [rng.randint(-840, 840) for _ in range(12)]
+    for fname, pred in facets:
+        h = Harness(DateTime.customize(**{fname: bound}))
+        for off in offs:
+            tz = dtm.timezone(dtm.timedelta(minutes=off))
+            for delta in (-7200, -3600, -1, 0, 1, 3600, 7200):
+                inst = bound + dtm.timedelta(seconds=delta)
+                lit = inst.astimezone(tz).isoformat()
+                if off == 0:
+                    lit = lit.replace('+00:00', 'Z')
+                want = pred(inst)
+                for proto in ('xml', 'soap11', 'json', 'yaml', 'msgpack', 'http'):
+                    for pos in ('top', 'nested'):
+                        res = h.run(proto, pos, ('val', lit))
+                        got = classify(res)
+                        if got is None:
+                            continue
+                        check.count(('dtrange', fname, off, delta, proto, pos))
+                        ok = (got == 'accept') == want and not got.startswith('other')
+                        if ok and got == 'accept':
+                            v = res[1]
+                            ok = isinstance(v, dtm.datetime) and v.tzinfo is not None and v == inst
+                        if not ok:
+                            check.fail('C05|datetime-range|%s|%s|%s' % (fname, proto, 'offset' if off else 'utc'),
+                                       'DateTime(%s=2020-01-01T00:00:00Z) literal %s (instant %+d s from the bound) over %s at %s: '
+                                       'expected %s, got %r' % (fname, lit, delta, proto, pos, 'accept' if want else 'reject', res),
+                                       {'facet': fname, 'literal': lit, 'protocol': proto, 'position': pos})
+    check.sample({'family': 'DateTime range facets', 'bound': bound.isoformat(), 'offsets_min': offs[:6]})
+
+
 def family_leaf_corr(check, tier):
     """text_leaf / num_leaf (Coq, over the generated validation functions) against the real
     XmlDocument.from_element and JsonDocument._from_dict_value for customised types"""
@@ -648,6 +730,8 @@ def run(check):
     family_int_e2e(check, check.tier)
     family_text_e2e(check, check.tier)
     family_occurs(check, check.tier)
+    family_occurs_single(check, check.tier)
+    family_datetime_range(check, check.tier)
     family_lexical(check, check.tier)
     lib.flush_correspondences(check)
     return check.finish()
